@@ -861,8 +861,69 @@ fn check_value(st: &mut St, out: &mut Out, idx: usize, v: &V) -> u64 {
         |_, back| veq(&val, back, "$"),
     )
     .done();
+    // the host side of the dynamic-plugin macro bridge (plugin/loader.rs DynPluginMacroInfo) around an
+    // in-process plugin macro that returns its first argument: what the host sends must come back
+    if matches!(ef, Expect::Representable) {
+        let ty = build_type(&type_of(v));
+        match catch(|| bridge_identity(&val, ty)) {
+            Err(p) => report(st, out, idx, p.sig(), format!("the macro bridge panicked on {what}: {} @ {}", p.msg, p.loc), &wit),
+            Ok(back) => match catch(|| veq(&val, &back, "$")) {
+                Ok(Ok(())) => {
+                    st.c("roundtrips_equal:macro_bridge", 1);
+                    done += 1;
+                }
+                Ok(Err((class, detail))) => report(st, out, idx, format!("differs-after-roundtrip/macro_bridge/{class}"), format!("{what}: {detail}"), &wit),
+                Err(p) => report(st, out, idx, p.sig(), format!("reading the value returned by the macro bridge for {what} panicked: {} @ {}", p.msg, p.loc), &wit),
+            },
+        }
+    }
     st.c("values_checked", 1);
     done
+}
+
+/// Same shape as the `__ffi_macro_*` functions generated by mimium-plugin-macros: decode the
+/// arguments, call the method (here: identity on the first argument), encode the result and hand the
+/// buffer over as a leaked boxed slice.
+unsafe extern "C" fn ffi_macro_identity(
+    instance: *mut std::ffi::c_void,
+    args_ptr: *const u8,
+    args_len: usize,
+    out_ptr: *mut *mut u8,
+    out_len: *mut usize,
+) -> i32 {
+    if instance.is_null() || args_ptr.is_null() || out_ptr.is_null() || out_len.is_null() {
+        return -3;
+    }
+    unsafe {
+        let args_bytes = std::slice::from_raw_parts(args_ptr, args_len);
+        let args = match mimium_lang::runtime::ffi_serde::deserialize_macro_args(args_bytes) {
+            Ok(a) => a,
+            Err(_) => return -1,
+        };
+        let Some(first) = args.first() else { return -1 };
+        let result_bytes = match serialize_value(&first.0) {
+            Ok(b) => b,
+            Err(_) => return -2,
+        };
+        let boxed = result_bytes.into_boxed_slice();
+        *out_len = boxed.len();
+        *out_ptr = Box::into_raw(boxed) as *mut u8;
+        0
+    }
+}
+
+fn bridge_identity(val: &Value, ty: TypeNodeId) -> Value {
+    use mimium_lang::plugin::MacroFunction;
+    use mimium_lang::plugin::loader::{DynPluginMacroInfo, PluginInstance};
+    // any non-null pointer will do as the instance: the identity macro never dereferences it
+    let mut dummy = 0u8;
+    let instance = &mut dummy as *mut u8 as *mut PluginInstance;
+    let unit = Type::Primitive(PType::Unit).into_id();
+    let fn_ty = Type::Function { arg: unit, ret: unit }.into_id();
+    let info = unsafe { DynPluginMacroInfo::new("c20_identity".to_symbol(), fn_ty, instance, ffi_macro_identity) };
+    let f = info.get_fn();
+    let r = (f.borrow())(&[(val.clone(), ty)]);
+    r
 }
 
 /// One macro argument list.
